@@ -23,7 +23,7 @@ func init() {
 		Reach:       []string{"call"},
 		Explanation: "Differential bounded symbolic execution of MemFS' permission and ownership enforcement against posixref's discretionary access control: a tree /w/d (directory), /w/d/f (file), /w/e (second directory), optionally /w/d/s/g (depth 3), whose every node has a symbolic mode (9 permission bits, plus setgid and sticky for directories) and symbolic owner and group installed by the administrator; the acting user has a symbolic uid and gid (uid 0 included: the administrator is never refused), the umask is symbolic (9 bits); one call out of 20 templates (Stat, Lstat, OpenFile with symbolic access mode/O_TRUNC/O_APPEND, ReadDir, ReadFile, Mkdir, MkdirAll, Create, WriteFile, Remove, RemoveAll, Rename, Rename of a directory, Link, Symlink, Chmod, Chown, Chtimes, Truncate, Readlink). Asserted for every value: same allow/deny decision and errno as the model; objects created are owned by the caller (group of a setgid directory) with mode perm &^ umask. Natively every explored path is replayed against the kernel under the same fsuid/fsgid (no supplementary groups): a model/kernel disagreement is an ORACLE mismatch (exit 3).",
 		Bounds: func(tier string) map[string]any {
-			return map[string]any{"tree_depth": map[string]string{"quick": "2", "thorough": "2; 3 for Stat, Lstat, OpenFile, ReadDir, Mkdir, MkdirAll, Create, Remove, Chmod, Truncate"}[tier], "calls_per_history": 1, "ids": "0..60000 (symbolic; only their equalities matter)", "mode_bits": "0o777 files, 0o3777 directories", "outside": "ACLs, capabilities other than root, supplementary groups, setuid bits, depth > 3, histories"}
+			return map[string]any{"tree_depth": map[string]string{"quick": "2", "thorough": "2; 3 for Stat, Lstat, OpenFile, ReadDir, Mkdir, MkdirAll, Create, Remove, Chmod, Truncate"}[tier], "calls_per_history": 1, "truncate_size": "symbolic 0..2 (file length 1)", "ids": "0..60000 (symbolic; only their equalities matter)", "mode_bits": "0o777 files, 0o3777 directories", "outside": "ACLs, capabilities other than root, supplementary groups, setuid bits, depth > 3, histories"}
 		},
 		Trusted: []string{"posixref DAC model (/verif/harness/posix), cross-validated against the kernel (setfsuid/setfsgid) on every explored path"},
 	})
